@@ -143,6 +143,25 @@ def check_register(rep, db, f, inst, style):
             pushes = ins
         elif finds:
             style["search"] = "linear"
+        manual = None
+        if not finds:
+            # hand-written linear search: a loop over callback_keys comparing each element with the key and recording the outcome
+            rng = [i for i, e in enumerate(evs) if e.kind in ("RANGE", "LOOPSKIP") and "callback_keys" in fmt(e.a)]
+            if rng:
+                style["search"] = "linear"
+                finds = rng[:1]
+                manual = {"key": None, "flag": None, "end": None}
+                for j, e in enumerate(evs):
+                    ca = e.a[1] if e.kind == "ASSUME" and isinstance(e.a, tuple) and e.a[:1] == ("not",) else e.a
+                    if j > rng[0] and e.loop > 0 and e.kind == "ASSUME" and isinstance(ca, tuple) and ca[0] == "cmp" and ca[1] in ("==", "!="):
+                        ops_ = [ca[2], ca[3]]
+                        el = [x for x in ops_ if isinstance(x, tuple) and (x[:1] == ("elem",) or (x[:1] == ("rd",) and isinstance(x[1], tuple) and x[1][:1] == ("elem",)))]
+                        if el and manual["key"] is None:
+                            manual["key"] = [x for x in ops_ if x not in el][0]
+                    if j > rng[0] and e.loop > 0 and e.kind == "STORE" and isinstance(e.a, tuple) and e.a[:1] == ("var",) and manual["flag"] is None:
+                        manual["flag"] = e.a[2] if len(e.a) > 2 else None
+                    if e.kind == "LOOP_END" and manual["end"] is None and j > rng[0]:
+                        manual["end"] = j
         if not loads or not backend or min(loads) > min(backend):
             bad = "the CREATED status is not checked before the backend registration"
         else:
@@ -158,11 +177,24 @@ def check_register(rep, db, f, inst, style):
         if bad is None:
             ins_args = (evs[pushes[0]].extra or {}).get("argvals", evs[pushes[0]].b)
             key_ins = ins_args[1] if q.short(evs[pushes[0]].a) in ("insert", "emplace") and len(ins_args) > 1 else ins_args[0]
-            fa = (evs[finds[0]].extra or {}).get("argvals", evs[finds[0]].b)
-            key_find = fa[2] if len(fa) >= 3 else None
-            fret = (evs[finds[0]].extra or {}).get("ret")
-            # the negative outcome of the search must be asserted before inserting
-            dup_checked = any(e.kind == "ASSUME" and fret is not None and q.mentions(e.a, lambda x: same_obj(p, x, fret)) for e in evs[finds[0]:pushes[0]])
+            if manual is None:
+                fa = (evs[finds[0]].extra or {}).get("argvals", evs[finds[0]].b)
+                key_find = fa[2] if len(fa) >= 3 else None
+                fret = (evs[finds[0]].extra or {}).get("ret")
+                # the negative outcome of the search must be asserted before inserting
+                dup_checked = any(e.kind == "ASSUME" and fret is not None and q.mentions(e.a, lambda x: same_obj(p, x, fret)) for e in evs[finds[0]:pushes[0]])
+            elif evs[finds[0]].kind == "LOOPSKIP":
+                # empty key set on this path: nothing to compare with; the loop paths carry the obligations
+                key_find, dup_checked = key_ins, True
+            else:
+                key_find = manual["key"]
+                fl = manual["flag"]
+                # the recorded outcome (a flag written inside the loop) must be asserted between the end of the loop and the insertion
+                dup_checked = manual["end"] is not None and any(
+                    e.kind == "ASSUME" and (e.extra or {}).get("abort_check") and q.mentions(e.a, lambda x: isinstance(x, tuple) and x[:1] == ("havoc",) and (fl is None or x[-1] == fl))
+                    for e in evs[manual["end"]:pushes[0]])
+                if key_find is None:
+                    key_find = key_ins if False else None
             key_backend = evs[backend[0]].b[0]
             owner_key = p.state.mem.get(("fld", p.retval, "key")) if isinstance(p.retval, tuple) else None
             owner_tr = p.state.mem.get(("fld", p.retval, "callback_trampoline")) if isinstance(p.retval, tuple) else None
